@@ -501,6 +501,12 @@ func checkC17(ctx *Ctx) {
 				c = sign(c)
 				sat := map[string]bool{">=": c >= 0, "<=": c <= 0, ">": c > 0, "<": c < 0, "=": c == 0, "!=": c != 0}[op]
 				if scheme == "pypi" && pypiIsPre(pp.Val) && !pypiIsPre(bp.Val) {
+					if strings.Contains(bound, "+") {
+						// the gate scans the constraint TEXT for pre-release markers, and a local
+						// label may spell one (1.0+a.c): whether such a constraint "names a
+						// pre-release" is not part of C17 (nor of PEP 440) — not claimed
+						continue
+					}
 					sat = false
 				}
 				exp = "f"
